@@ -132,6 +132,10 @@ class AntitheticStream(MersenneTwister):
         u = super().next_float()
         return 1.0 - u if u > 0.0 else 0.0
 
+    def next_int(self, low, high, /):
+        # (a user stream need not name its parameters like the abstract method does)
+        return MersenneTwister.next_int(self, low, high)
+
 
 class NamedAntitheticStream(AntitheticStream):
     """... and a further subclass that only adds a name: next_float is inherited from
@@ -452,6 +456,11 @@ def run_cell(name, params, plan, seed=7, n_draws=4):
         d2 = build(name, params, NamedAntitheticStream(seed))
         v1 = [d1.draw() for _ in range(3)]
         v2 = [d2.draw() for _ in range(3)]
+    except TypeError as e:
+        # (the numbers are as legal as any: only the way the stream is called can fail)
+        return ("draw-raised", "Dist%s(%s) on a user stream (a MersenneTwister subclass whose "
+                "next_int takes its bounds as positional-only parameters named low, high) "
+                "raised TypeError: %s" % (name, params, e)), info
     except Exception:
         v1 = v2 = None
     if v1 != v2:
